@@ -26,7 +26,16 @@ type stressHandler struct {
 
 func (h *stressHandler) Read(s *stcp.Session) error {
 	var b [1]byte
-	return s.Read(b[:]) // consumes and ignores what the peer sends; ends on a read error
+	if err := s.Read(b[:]); err != nil { // ends on a read error
+		return err
+	}
+	switch b[0] {
+	case 'p':
+		panic("c16-handler-panic")
+	case 'e':
+		return errHandler
+	}
+	return nil
 }
 func (h *stressHandler) OnExit(s *stcp.Session) { atomic.AddInt32(&h.exits, 1) }
 
@@ -45,6 +54,8 @@ func (w *world) stress(kind string, seed uint64) string {
 		}
 	case "big":
 		w.stressBig(r)
+	case "par":
+		w.stressPar(r)
 	}
 	w.settle(func() bool { return true })
 	return "done"
@@ -221,5 +232,63 @@ func (w *world) stressBig(r *rng.R) {
 	}
 	if c := sw.count(); c != 0 {
 		sw.hit("C16:count:unbalanced", fmt.Sprintf("ConnCount()=%d after the only session ended", c))
+	}
+}
+
+// stressPar: MANY sessions of ONE manager started and ended at the same time by several goroutines — by peer close,
+// by a panic in the read handler, by a handler error, with and without a value attached (Set): Inc/Dec of the count,
+// the exit callbacks and the error-level log lines of `recovery` overlap for real. Afterwards every session has
+// ended exactly once and the count is back where it was.
+func (w *world) stressPar(r *rng.R) {
+	h := &stressHandler{}
+	mgr := stcp.NewSessionMgr(h, stcp.WithReadTimeout(longTimeout), stcp.WithWriteTimeout(longTimeout))
+	before := mgr.ConnCount()
+	const workers, per = 8, 500
+	salt := r.Intn(4)
+	var wg sync.WaitGroup
+	for g := 0; g < workers; g++ {
+		wg.Add(1)
+		go func(g int) {
+			defer wg.Done()
+			for i := 0; i < per; i++ {
+				a, b := net.Pipe()
+				mgr.Do(a)
+				switch (i + g + salt) % 4 {
+				case 0:
+					_, _ = b.Write([]byte{'p'})
+				case 1:
+					_, _ = b.Write([]byte{'e'})
+				case 2:
+					yield(1)
+				}
+				_ = b.Close()
+			}
+		}(g)
+	}
+	wg.Wait()
+	w.quiesce()
+	if w.dead != "" || w.spin {
+		return
+	}
+	total := int32(workers * per)
+	if ex := atomic.LoadInt32(&h.exits); ex != total {
+		w.hit("C16:quit:onexit-not-once", fmt.Sprintf("stress par: %d sessions of one manager started and ended in parallel, OnExit ran %d times", total, ex))
+	}
+	if n := mgr.ConnCount(); n != before {
+		w.hit("C16:count:unbalanced", fmt.Sprintf("stress par: ConnCount()=%d after %d sessions of one manager started and ended in parallel (was %d before)", n, total, before))
+	}
+	left := 0
+	for _, n := range loopsOf() {
+		left += n
+	}
+	// sessions of the enclosing world may be alive: only loops beyond theirs count
+	alive := 0
+	for _, cs := range w.sess {
+		if ex, _, _, _, _ := cs.snapshot(); ex == 0 {
+			alive += 2
+		}
+	}
+	if left > alive {
+		w.hit("C16:loops:goroutine-left", fmt.Sprintf("stress par: %d loop goroutine(s) still running after all %d sessions ended", left-alive, total))
 	}
 }
